@@ -9,6 +9,7 @@ import (
 	"go/types"
 	"sort"
 	"strings"
+	"unicode/utf8"
 
 	"golang.org/x/tools/go/ssa"
 )
@@ -118,6 +119,9 @@ func (c *Ctx) lexRoles0() *LexRoles {
 		recv := f.Signature.Recv()
 		var t types.Type
 		if recv != nil {
+			if f.Signature.Params().Len() == 0 && f.Signature.Results().Len() == 1 && isFuncType(f.Signature.Results().At(0).Type()) {
+				return false // a state function written as a method (used through a method expression)
+			}
 			t = recv.Type()
 		} else {
 			ps, rs := f.Signature.Params(), f.Signature.Results()
@@ -156,12 +160,31 @@ func (c *Ctx) lexRoles0() *LexRoles {
 			if f.Signature.Variadic() && rs.Len() == 1 && f != lr.Next {
 				lr.Errorf = f
 			}
+			// the error operation by what it does: the one operation besides the constructor that stores the input
+			if f != lr.Next && f != lr.Peek && f != lr.LexCtor && rs.Len() == 1 && isFuncType(rs.At(0).Type()) && lr.InputF != nil && lr.Errorf == nil {
+				for _, b := range f.Blocks {
+					for _, in := range b.Instrs {
+						if st, ok := in.(*ssa.Store); ok {
+							if fa, ok := st.Addr.(*ssa.FieldAddr); ok && fieldVar(fa.X.Type(), fa.Field) == lr.InputF {
+								lr.Errorf = f
+							}
+						}
+					}
+				}
+			}
 			continue
 		}
-		// state functions: func(*Lexer) <func type>
+		// state functions: func(*Lexer) <func type>, or the same as a method without further parameters
 		ps, rs := f.Signature.Params(), f.Signature.Results()
-		if ps.Len() == 1 && rs.Len() == 1 {
-			if p, ok := ps.At(0).Type().(*types.Pointer); ok && types.Identical(p.Elem(), lr.Lexer) && isFuncType(rs.At(0).Type()) {
+		if rs.Len() == 1 && isFuncType(rs.At(0).Type()) {
+			var pt types.Type
+			switch {
+			case f.Signature.Recv() != nil && ps.Len() == 0:
+				pt = f.Signature.Recv().Type()
+			case f.Signature.Recv() == nil && ps.Len() == 1:
+				pt = ps.At(0).Type()
+			}
+			if p, ok := pt.(*types.Pointer); ok && types.Identical(p.Elem(), lr.Lexer) {
 				lr.States = append(lr.States, f)
 				lr.StateType = rs.At(0).Type()
 			}
@@ -461,6 +484,28 @@ func ruleLEXWRITE(c *Ctx, r *Report) {
 						why = "step back by the last rune's width under !atEOF && pos > 0"
 					} else {
 						why = "backup not guarded by !atEOF && pos > 0"
+					}
+				case bo.Op == token.ADD && wk == "1":
+					// a byte below utf8.RuneSelf is a whole character of width 1
+					if hasAtom(atoms, posK+"<len("+inK+")") && asciiBound(atoms, inK+"["+posK+"]") {
+						okW, why = true, "advance by one over a single-byte character under pos < len(input)"
+					} else {
+						why = "advance by one byte without having established pos < len(input) and input[pos] < utf8.RuneSelf"
+					}
+				case bo.Op == token.SUB && wk == "1":
+					g1, g2 := false, false
+					for _, a := range atoms {
+						if a.Kind == "bool" && a.Subj == eofK && !a.Pos {
+							g1 = true
+						}
+						if a.Kind == "cmp" && a.Subj == posK && a.Op == ">" && a.Val == "0" {
+							g2 = true
+						}
+					}
+					if g1 && g2 && asciiBound(atoms, inK+"[("+posK+" - 1)]") {
+						okW, why = true, "step back by one over a single-byte character under !atEOF && pos > 0"
+					} else {
+						why = "step back by one byte without !atEOF && pos > 0 && input[pos-1] < utf8.RuneSelf"
 					}
 				default:
 					why = "pos changed by something other than a decoded rune width: " + wk
@@ -853,6 +898,13 @@ func (c *Ctx) atomFalseAt(a Atom, rk string, rv int64) (isFalse bool, known bool
 		}
 		return !res, true
 	case "call":
+		if a.Subj == "strings.ContainsRune" && strings.HasSuffix(a.Val, ","+rk) {
+			// membership in a constant string
+			if set, ok := runeSetOfKeyString(strings.TrimSuffix(a.Val, ","+rk)); ok && utf8.ValidString(set) {
+				in := rv >= 0 && rv != utf8.RuneError && strings.ContainsRune(set, rune(rv))
+				return in != a.Pos, true
+			}
+		}
 		if strings.HasPrefix(a.Subj, "unicode.Is") && a.Val == rk && rv < 0 {
 			// the unicode range predicates are false for every negative rune
 			return a.Pos, true
